@@ -264,7 +264,8 @@ class RaggedArray(IndexableArray, np.lib.mixins.NDArrayOperatorsMixin):
             if self._shape.lengths[-1] == 0:
                 first_last_empty_row = np.searchsorted(self._shape.starts, self._shape.starts[-1], side='left')
                 result = ufunc.reduceat(self.ravel(), self._shape.starts[:first_last_empty_row])
-                result = np.pad(result, (0, len(self._shape.starts)-first_last_empty_row), constant_values=ufunc.identity)
+                pad_value = ufunc.identity if ufunc.identity is not None else 0  # no identity (max/min): empty rows are unspecified
+                result = np.pad(result, (0, len(self._shape.starts)-first_last_empty_row), constant_values=pad_value)
             else:
                 result = ufunc.reduceat(self.ravel(), self._shape.starts)
 
